@@ -93,7 +93,7 @@ def loggammacs_UNIFAC(qs, rs, x):
     Vs = rs/r_net
     Fs = qs/q_net
     Vs_over_Fs = Vs/Fs
-    return 1. - Vs - np.log(Vs) - 5.*qs*(1. - Vs_over_Fs + np.log(Vs_over_Fs))
+    return 1. - Vs + np.log(Vs) - 5.*qs*(1. - Vs_over_Fs + np.log(Vs_over_Fs))
 
 @njit(cache=True)
 def loggammacs_modified_UNIFAC(qs, rs, x):
